@@ -30,6 +30,14 @@ CHECKS = {
          "pull counts compared with the machine's at each delivery (inequality), weak-reference liveness for negative Slice.",
          "The laziest-allowed schedule is the spec machine (islice consumes to stop, Count one look-ahead, Split one block).",
          "DESIGN.md 5 C02"),
+ "C03": ("TLA+ scheduler machine of Split.run (active list + index, Split.tla) = declarative block/branch semantics SplitSem checked by TLC "
+         "with bufsize-independence, once-only and accounting invariants; every scenario replayed on the real Split (both copy_buf), "
+         "common-type methods and Zip along SplitCT.tla behaviours; random configurations trace-validated (Trace_Split.tla)",
+         "Exhaustive over branch lists <= 2 (thorough 3; 4 by simulation) of 13 tagged branch kinds (Source, fill/compute and fill/request with "
+         "LenaStopFill at every index, map, filter, run element with end marker) x flows <= 4 (6) x bufsize {1,2,3,5,1000,None}; "
+         "each replayed on lena.core.Split.run; 600+ random 5-branch configurations validated by TLC.",
+         "Branches are harness elements with tagged outputs; laziness inside a block belongs to C02, FillRequest internals to C16.",
+         "DESIGN.md 5 C03"),
 }
 NOT_YET = "check not built yet in this round (planned, see DESIGN.md section 5)"
 
